@@ -387,7 +387,8 @@ class PrettyFormatter(BaseFormatter):
             registry.separate_format_defaults,
         )
 
-        unc_spec = meas_spec
+        # the abbreviation flag concerns the units only
+        unc_spec = meas_spec.replace("~", "")
         joint_fstring = "{} {}"
 
         return join_unc(
